@@ -23,6 +23,7 @@ import (
 // the k-th attempt at a backend).
 type fwdParams struct {
 	DupPrepares     bool // some PREPAREs repeat the text of an earlier one
+	ExoticErrors    bool // some scripted outcomes are ERROR responses the codec library cannot decode
 	SystemPrepares  bool // some system requests are PREPAREd and EXECUTEd instead of queried
 	TracedPrepares  bool // some PREPAREs ask for tracing
 	Hosts, NumConns int
@@ -206,7 +207,7 @@ func (f *fwd) script(tok string, v primitive.ProtocolVersion) []world.OutcomeSpe
 	var specs []world.OutcomeSpec
 	var outs []world.Outcome
 	for i := 0; i < n; i++ {
-		s := world.DrawOutcome(c, v)
+		s := world.DrawOutcomeX(c, v, f.p.ExoticErrors)
 		specs = append(specs, s)
 		outs = append(outs, s.Outcome)
 	}
